@@ -63,6 +63,8 @@ def main(tier):
     run.configs.append({"config": "full", "crates": fx.summary()})
     cg = M.CallGraph(fx, ["temporal_rs", "temporal_provider"])
     provider.check_effects(run, fx, cg)
+    provider.check_cache_key(run, fx)
+    provider.check_identifier_pure(run, fx, cg)
     check_identifier(run, fx)
     n = units.report(run, fx, "C15")
     if n < 10:
